@@ -66,10 +66,11 @@ Qed.
 Lemma top_prog_code wsk csk ops : ws_safeb wsk = true -> ws_safeb csk = true -> top (prog_code wsk csk ops).
 Proof.
   intros Hw Hc. unfold prog_code. induction ops as [|o ops IH]; cbn; [constructor|].
-  destruct o as [tmo f|fs|]; cbn [op_code].
+  destruct o as [tmo f|fs| |f]; cbn [op_code].
   - rewrite <- app_assoc. apply top_frame_code; [exact Hc|]. cbn. now apply top_end.
   - cbn [app]. apply top_prep. rewrite <- app_assoc. apply top_frames_code; [exact Hw|]. cbn. now apply top_end.
   - cbn. apply top_closet. now apply top_end.
+  - rewrite <- app_assoc. apply top_frame_code; [exact Hc|]. cbn. now apply top_end.
 Qed.
 
 (* ------------------------------------------------------------------ the invariant *)
